@@ -740,7 +740,22 @@ class Interp:
         top = len(stack) - 1
         while True:
             nxt = None
-            for ins in blocks[lab]:
+            blk = blocks[lab]
+            if blk and blk[0].op == 'phi':
+                # phi nodes of a block are evaluated simultaneously on entry
+                vals = []
+                for ins in blk:
+                    if ins.op != 'phi':
+                        break
+                    for v, l in ins.a:
+                        if l == prev:
+                            vals.append((ins.dst, s.val(env, v, ins.ty)))
+                            break
+                    else:
+                        raise Incomplete('phi without matching predecessor')
+                for d, v in vals:
+                    env[d] = v
+            for ins in blk:
                 s.steps += 1
                 stack[top] = (name, ins)
                 op = ins.op
@@ -799,12 +814,7 @@ class Interp:
                         return None
                     return s.val(env, ins.a[0], ins.ty)
                 elif op == 'phi':
-                    for v, l in ins.a:
-                        if l == prev:
-                            env[ins.dst] = s.val(env, v, ins.ty)
-                            break
-                    else:
-                        raise Incomplete('phi without matching predecessor')
+                    pass
                 elif op == 'select':
                     c = s.val(env, ins.a[0], ins.x)
                     a = s.val(env, ins.a[1], ins.ty)
